@@ -423,6 +423,20 @@ func callSSA(i *interpreter, caller *frame, callpos token.Pos, fn *ssa.Function,
 		}
 	}
 
+	return callSSABodyEnv(i, caller, fn, args, env)
+}
+
+// callSSABody interprets fn's own body (bypassing externals / overrides).
+func callSSABody(i *interpreter, caller *frame, fn *ssa.Function, args []value) value {
+	return callSSABodyEnv(i, caller, fn, args, nil)
+}
+
+func callSSABodyEnv(i *interpreter, caller *frame, fn *ssa.Function, args []value, env []value) value {
+	fr := &frame{
+		i:      i,
+		caller: caller, // for panic/recover
+		fn:     fn,
+	}
 	// generic function body?
 	if fn.TypeParams().Len() > 0 && len(fn.TypeArgs()) == 0 {
 		panic("interp requires ssa.BuilderMode to include InstantiateGenerics to execute generics")
